@@ -395,10 +395,48 @@ func canonPath(info *types.Info, e ast.Expr) string {
 			// a local defined exactly once as a copy of an access path stands for that path
 			if src := localAliasOf(info, t); src != nil && hops < 4 {
 				hops++
-				if len(fields) == 0 {
-					return canonPath(info, src)
+				root := canonPath(info, src)
+				if id, ok := unparen(src).(*ast.Ident); ok && root == id.Name && len(fields) > 0 {
+					if name := anchorType(info.TypeOf(id)); name != "" {
+						root = name
+					}
 				}
-				return canonPath(info, src) + "." + strings.Join(fields, ".")
+				return joinPath(root, fields)
+			}
+			// the value variable of `for _, v := range X` stands for an element of X
+			if rx := rangeSourceOf(info, t); rx != nil && hops < 4 {
+				hops++
+				return joinPath(canonPath(info, rx)+"[*]", fields)
+			}
+			// a local defined exactly once by a call or conversion stands for that expression
+			if src := singleDefOf(info, info.ObjectOf(t)); src != nil && hops < 4 && canonDepth < 6 {
+				switch unparen(src).(type) {
+				case *ast.CallExpr, *ast.IndexExpr:
+					hops++
+					canonDepth++
+					r := joinPath(canonExpr(info, src), fields)
+					canonDepth--
+					return r
+				}
+			}
+			if len(fields) > 0 {
+				if name := anchorType(info.TypeOf(t)); name != "" {
+					return joinPath(name, fields)
+				}
+			}
+		case *ast.IndexExpr:
+			if v, ok := constInt(info, t.Index); ok {
+				fields = append([]string{fmt.Sprintf("[%d]", v)}, fields...)
+				cur = t.X
+				continue
+			}
+			if canonDepth < 6 {
+				canonDepth++
+				ix := canonExpr(info, t.Index)
+				canonDepth--
+				fields = append([]string{"[" + ix + "]"}, fields...)
+				cur = t.X
+				continue
 			}
 		case *ast.ParenExpr:
 			cur = t.X
@@ -415,8 +453,8 @@ func canonPath(info *types.Info, e ast.Expr) string {
 					if id, ok := unparen(t.X).(*ast.Ident); ok && localAliasOf(info, id) != nil {
 						aliased = true
 					}
-					if _, isPtr := info.TypeOf(t.X).(*types.Pointer); (isPtr || isIdent(t.X)) && !aliased {
-						return name + "." + strings.Join(fields, ".")
+					if _, isPtr := info.TypeOf(t.X).(*types.Pointer); (isPtr || isIdent(t.X)) && !aliased && (isIdent(t.X) || !isAmbiguousAnchor(info.TypeOf(t.X))) {
+						return joinPath(name, fields)
 					}
 				}
 				cur = t.X
@@ -433,8 +471,56 @@ func canonPath(info *types.Info, e ast.Expr) string {
 		}
 		break
 	}
+	if len(fields) > 0 && cur != e {
+		// an index/field suffix on something that is not a path (a call result, ...)
+		if _, isCall := unparen(cur).(*ast.CallExpr); isCall && canonDepth < 6 {
+			canonDepth++
+			r := joinPath(canonExpr(info, cur), fields)
+			canonDepth--
+			return r
+		}
+	}
 	s := types.ExprString(e)
 	return s
+}
+
+var canonDepth int
+
+// ambiguousAnchor: named struct types of which some struct holds two (pointers to) values; filled at load.
+var ambiguousAnchor = map[*types.TypeName]bool{}
+
+func isAmbiguousAnchor(t types.Type) bool {
+	if p, ok := t.(*types.Pointer); ok {
+		t = p.Elem()
+	}
+	if n, ok := t.(*types.Named); ok {
+		return ambiguousAnchor[n.Obj()]
+	}
+	return false
+}
+
+// joinPath appends field and index components to a root: joinPath("CSI", ["Parameters","[0]","[0]"]) = "CSI.Parameters[0][0]".
+func joinPath(root string, fields []string) string {
+	var sb strings.Builder
+	sb.WriteString(root)
+	for _, f := range fields {
+		if !strings.HasPrefix(f, "[") {
+			sb.WriteByte('.')
+		}
+		sb.WriteString(f)
+	}
+	return sb.String()
+}
+
+var rangeSourceTables = map[*types.Info]map[types.Object]ast.Expr{}
+
+// rangeSourceOf: id is the value variable of exactly one range statement and is never assigned otherwise;
+// returns the ranged-over expression.
+func rangeSourceOf(info *types.Info, id *ast.Ident) ast.Expr {
+	if t := rangeSourceTables[info]; t != nil {
+		return t[info.ObjectOf(id)]
+	}
+	return nil
 }
 
 func isIdent(e ast.Expr) bool { _, ok := unparen(e).(*ast.Ident); return ok }
@@ -541,10 +627,30 @@ func exprKeys(info *types.Info, e ast.Expr, pol bool) []string {
 		}
 	}
 	k := canonExpr(info, e)
+	out := []string{"-" + k}
 	if pol {
-		return []string{"+" + k}
+		out = []string{"+" + k}
 	}
-	return []string{"-" + k}
+	// a boolean obtained from a repository helper: add what the helper's returns imply
+	switch t := e.(type) {
+	case *ast.Ident:
+		if td, ok := tupleDefTables[info][info.ObjectOf(t)]; ok {
+			if ks, ok := helperResultKeys(info, td.call, td.idx, pol); ok {
+				out = append(out, ks...)
+			}
+		} else if src := singleDefOf(info, info.ObjectOf(t)); src != nil {
+			if call, ok := unparen(src).(*ast.CallExpr); ok {
+				if ks, ok := helperResultKeys(info, call, 0, pol); ok {
+					out = append(out, ks...)
+				}
+			}
+		}
+	case *ast.CallExpr:
+		if ks, ok := helperResultKeys(info, t, 0, pol); ok {
+			out = append(out, ks...)
+		}
+	}
+	return out
 }
 
 func canonExpr(info *types.Info, e ast.Expr) string {
@@ -571,8 +677,21 @@ func canonExpr(info *types.Info, e ast.Expr) string {
 				return fmt.Sprintf("%q", s)
 			}
 		}
-		return canonPath(info, e)
-	case *ast.SelectorExpr, *ast.Ident, *ast.StarExpr:
+		if r := canonPath(info, e); r != types.ExprString(e) {
+			return r
+		}
+		// f(args) / T(x): canonical arguments
+		if canonDepth < 6 {
+			canonDepth++
+			var args []string
+			for _, a := range t.Args {
+				args = append(args, canonExpr(info, a))
+			}
+			canonDepth--
+			return types.ExprString(t.Fun) + "(" + strings.Join(args, ", ") + ")"
+		}
+		return types.ExprString(e)
+	case *ast.SelectorExpr, *ast.Ident, *ast.StarExpr, *ast.IndexExpr:
 		return canonPath(info, e)
 	}
 	return types.ExprString(e)
@@ -806,7 +925,13 @@ func buildAliasTable(info *types.Info, files []*ast.File) {
 	bad := map[types.Object]bool{}
 	anyDefs := map[types.Object][]ast.Expr{}
 	multi := map[types.Object]bool{}
+	rangeDefs := map[types.Object][]ast.Expr{}
+	tupleDefs := map[types.Object][]tupleDef{}
+	writes := map[types.Object]int{}
 	note := func(l ast.Expr, r ast.Expr, define bool) {
+		if id, ok := l.(*ast.Ident); ok {
+			writes[info.ObjectOf(id)]++
+		}
 		id, ok := l.(*ast.Ident)
 		if !ok {
 			return
@@ -836,8 +961,14 @@ func buildAliasTable(info *types.Info, files []*ast.File) {
 						note(s.Lhs[i], s.Rhs[i], s.Tok == token.DEFINE)
 					}
 				} else {
-					for _, l := range s.Lhs {
+					for i, l := range s.Lhs {
 						note(l, nil, false)
+						if call, ok := s.Rhs[0].(*ast.CallExpr); ok && len(s.Rhs) == 1 {
+							if id, ok := l.(*ast.Ident); ok && id.Name != "_" {
+								o := info.ObjectOf(id)
+								tupleDefs[o] = append(tupleDefs[o], tupleDef{call, i})
+							}
+						}
 					}
 				}
 			case *ast.IncDecStmt:
@@ -848,6 +979,9 @@ func buildAliasTable(info *types.Info, files []*ast.File) {
 				}
 				if s.Value != nil {
 					note(s.Value, nil, false)
+					if id, ok := s.Value.(*ast.Ident); ok && s.Tok == token.DEFINE {
+						rangeDefs[info.ObjectOf(id)] = append(rangeDefs[info.ObjectOf(id)], s.X)
+					}
 				}
 			case *ast.ValueSpec:
 				for i, nm := range s.Names {
@@ -883,6 +1017,120 @@ func buildAliasTable(info *types.Info, files []*ast.File) {
 		}
 	}
 	singleDefTables[info] = sd
+	rs := map[types.Object]ast.Expr{}
+	for o, xs := range rangeDefs {
+		if len(xs) == 1 && writes[o] == 1 && o != nil {
+			rs[o] = xs[0]
+		}
+	}
+	rangeSourceTables[info] = rs
+	td := map[types.Object]tupleDef{}
+	for o, ds := range tupleDefs {
+		if len(ds) == 1 && writes[o] == 1 && o != nil {
+			td[o] = ds[0]
+		}
+	}
+	tupleDefTables[info] = td
+}
+
+type tupleDef struct {
+	call *ast.CallExpr
+	idx  int
+}
+
+var tupleDefTables = map[*types.Info]map[types.Object]tupleDef{}
+
+// theProgram is set once the program is loaded (helper summaries need function bodies).
+var theProgram *Program
+
+var helperKeyDepth int
+
+// helperResultKeys: the canonical guard keys that hold whenever result #idx of the repository function
+// called by call has the boolean value pol: the keys common to every return statement that can yield it
+// (the callee's parameters stand for the caller's arguments). ok=false: not a summarisable helper.
+func helperResultKeys(info *types.Info, call *ast.CallExpr, idx int, pol bool) ([]string, bool) {
+	p := theProgram
+	if p == nil || helperKeyDepth > 2 {
+		return nil, false
+	}
+	fi := p.FuncOfObj(calleeOf(info, call))
+	if fi == nil || fi.Decl.Body == nil || fi.Pkg.TypesInfo != info {
+		return nil, false
+	}
+	sig := fi.Obj.Type().(*types.Signature)
+	if idx >= sig.Results().Len() {
+		return nil, false
+	}
+	if bt, ok := sig.Results().At(idx).Type().Underlying().(*types.Basic); !ok || bt.Info()&types.IsBoolean == 0 {
+		return nil, false
+	}
+	// bind parameters to arguments for the duration of the summary
+	tbl := aliasTables[info]
+	if tbl == nil {
+		return nil, false
+	}
+	var bound []types.Object
+	i := 0
+	for _, f := range fi.Decl.Type.Params.List {
+		for _, nm := range f.Names {
+			if i < len(call.Args) && !sig.Variadic() {
+				o := info.Defs[nm]
+				if _, had := tbl[o]; !had && o != nil {
+					tbl[o] = call.Args[i]
+					bound = append(bound, o)
+				}
+			}
+			i++
+		}
+	}
+	defer func() {
+		for _, o := range bound {
+			delete(tbl, o)
+		}
+	}()
+	helperKeyDepth++
+	defer func() { helperKeyDepth-- }()
+	g := p.Graph(fi)
+	var common map[string]bool
+	n := 0
+	for _, h := range g.Find(func(n ast.Node) bool { _, ok := n.(*ast.ReturnStmt); return ok }) {
+		rs := h.Node.(*ast.ReturnStmt)
+		if len(rs.Results) != sig.Results().Len() {
+			return nil, false // bare return / call forwarding: not summarised
+		}
+		r := rs.Results[idx]
+		keys := guardKeys(g, h.Loc)
+		if tv, ok := info.Types[r]; ok && tv.Value != nil && tv.Value.Kind() == constant.Bool {
+			if constant.BoolVal(tv.Value) != pol {
+				continue
+			}
+		} else {
+			keys = append(keys, exprKeys(info, r, pol)...)
+		}
+		n++
+		set := map[string]bool{}
+		for _, k := range keys {
+			set[k] = true
+		}
+		if common == nil {
+			common = set
+		} else {
+			for k := range common {
+				if !set[k] {
+					delete(common, k)
+				}
+			}
+		}
+	}
+	if n == 0 {
+		return nil, false
+	}
+	var out []string
+	for k := range common {
+		out = append(out, k)
+	}
+	sort.Strings(out)
+	return out, true
 }
 
 var singleDefTables = map[*types.Info]map[types.Object]ast.Expr{}
@@ -911,6 +1159,11 @@ func isAccessPath(info *types.Info, e ast.Expr) bool {
 		case *ast.StarExpr:
 			e = t.X
 		case *ast.ParenExpr:
+			e = t.X
+		case *ast.IndexExpr:
+			if _, ok := constInt(info, t.Index); !ok {
+				return false
+			}
 			e = t.X
 		case *ast.Ident:
 			_, isVar := info.ObjectOf(t).(*types.Var)
